@@ -138,38 +138,74 @@ pub fn prayer_times_dt_rng_block(
     } else {
         1
     };
+    #[cfg(feature = "verif-hooks")]
+    let avail_pll = crate::verif::parallelism_override().unwrap_or(avail_pll);
     let no_parallelism = date_range.num_days() / avail_pll < min_days_for_pll;
 
     // No parallelism.
     if avail_pll == 1 || no_parallelism {
+        #[cfg(feature = "verif-hooks")]
+        crate::verif::point(crate::verif::Role::Main, "sequential", 0, 0, avail_pll);
         prayer_times_dt_rng(params, location, date_range)
     } else {
         // Maximize parallelism through threads that calculate partial time results.
         thread::scope(|s| {
+            #[cfg(feature = "verif-hooks")]
+            crate::verif::point(crate::verif::Role::Main, "parallel", 0, 0, avail_pll);
             let (tx, rx) = channel();
 
             // Spawn thread to combine prayer times for each date range.
             let handle = s.spawn(move || {
+                #[cfg(feature = "verif-hooks")]
+                crate::verif::point(crate::verif::Role::Collector, "collector_start", 0, 0, 0);
                 let mut times = BTreeMap::new();
                 while let Ok(mut partial_times) = rx.recv() {
+                    #[cfg(feature = "verif-hooks")]
+                    crate::verif::point_map(crate::verif::Role::Collector, "recv", &partial_times);
                     times.append(&mut partial_times);
                 }
+                #[cfg(feature = "verif-hooks")]
+                crate::verif::point(crate::verif::Role::Collector, "collector_end", 0, 0, times.len());
                 times
             });
 
             // Spawn threads to calculate prayer times for each date range.
             let date_ranges = date_range.partition(avail_pll);
             for date_range in date_ranges {
+                #[cfg(feature = "verif-hooks")]
+                crate::verif::point_range(
+                    crate::verif::Role::Main,
+                    "spawn",
+                    date_range.start_date(),
+                    date_range.end_date(),
+                    date_range.num_days(),
+                );
                 let tx = tx.clone();
                 s.spawn(move || {
+                    #[cfg(feature = "verif-hooks")]
+                    crate::verif::point_range(
+                        crate::verif::Role::Worker,
+                        "worker_start",
+                        date_range.start_date(),
+                        date_range.end_date(),
+                        date_range.num_days(),
+                    );
                     let partial_times = prayer_times_dt_rng(params, location, &date_range);
+                    #[cfg(feature = "verif-hooks")]
+                    crate::verif::point_map(crate::verif::Role::Worker, "before_send", &partial_times);
                     tx.send(partial_times).unwrap();
+                    #[cfg(feature = "verif-hooks")]
+                    crate::verif::point(crate::verif::Role::Worker, "after_send", 0, 0, 0);
                 });
             }
 
             // Close channel to terminate blocking channel receive loop.
+            #[cfg(feature = "verif-hooks")]
+            crate::verif::point(crate::verif::Role::Main, "before_drop", 0, 0, 0);
             drop(tx);
 
+            #[cfg(feature = "verif-hooks")]
+            crate::verif::point(crate::verif::Role::Main, "before_join", 0, 0, 0);
             handle.join().unwrap()
         })
     }
@@ -278,4 +314,11 @@ fn to_prayer_time(params: &Params, prayer: Prayer, prayer_hour: PrayerHour) -> P
         time: hour_to_time(params, prayer, prayer_hour.value),
         extreme: prayer_hour.extreme,
     }
+}
+
+/// Verification hook: the private hour-to-clock conversion (rounding) function.
+#[cfg(feature = "verif-hooks")]
+#[doc(hidden)]
+pub fn verif_hour_to_time(params: &Params, prayer: Prayer, hour: f64) -> NaiveTime {
+    hour_to_time(params, prayer, hour)
 }
